@@ -19,10 +19,12 @@ if [ -f "$S/demo.c" ]; then "$S/demo" >/dev/null 2>&1; WO=$?; else bash "$S/demo
 echo "CONFIRM tests_pass=$T demo_with_change_rc=$W demo_without_rc=$WO"
 if [ "$T" != "20" ] || [ "$W" = "0" ] || [ "$WO" != "0" ]; then echo "NOT-CONFIRMED"; fi
 cd /verif
+EVB=$(mktemp -d /var/tmp/qsx_evb.XXXXXX); cp -a evidence/. "$EVB"/     # evidence written under a mutation must not survive
 git -C /repo apply "$S/patch.diff" || { echo "PATCH-DOES-NOT-APPLY-TO-REPO"; exit 2; }
 for c in "$@"; do
   out=$(./check $c quick 2>&1); rc=$?
   echo "CHECK $c rc=$rc  $(echo "$out" | grep -c '^VIOLATION') violation lines; first: $(echo "$out" | grep '^# ' | head -1 | cut -c1-220)"
 done
 git -C /repo checkout -q -- .
+cp -a "$EVB"/. evidence/; rm -rf "$EVB"
 git -C /repo status --short | grep -v '^??'
